@@ -27,6 +27,15 @@ CHECKS = {
  "C06": ("mc_bits", "4/C06", "exhaustive enumeration of values (all 2^B for B<=16), all pairs for binary logic, and every index in [0,BITS+64] for accessors, vs the BigUint binary expansion",
          "Every bit-level entry point is compared with the binary expansion on complete universes, indices beyond the width included (false / None / no write / panic as documented).",
          "Same bounds as C05."),
+ "C07": ("mc_conv", "4/C07", "exhaustive enumeration of ALL values of the 8/16-bit source types, 2^k+-1 alphabets of the wider ones, limb slices of every length, and a 10x10 Uint->Uint width grid, on the real code vs exact integer range/wrap/saturate semantics incl. error payloads",
+         "Every conversion entry point (try/from/wrapping/saturating, value and reference forms, 13 primitive types, slices, Uint<->Uint) is executed on complete finite universes and compared including error kind and payload.",
+         "32/64/128-bit sources are enumerated over boundary alphabets, not all values (thorough: all 2^32 u32/i32 at 4 widths). Trusted: rustc/LLVM casts, num-bigint."),
+ "C08": ("mc_conv", "4/C08", "exhaustive enumeration of values for the encoders and of byte strings (ALL strings of length <= 2/3 at widths <= 25 bits; all run-shaped strings of every length 0..BYTES+8 at every width) for the decoders vs base-256 positional notation",
+         "All byte encoders, copy forms (every buffer length 0..BYTES+2 with sentinel) and decoders are compared with the base-256 digits; full-length strings with excess high bits are in the universe for every mask class (60/120/250-bit widths included).",
+         "Byte strings longer than 3 are run-shaped over a 5-byte alphabet. to_*_bytes::<N> only with N = BYTES."),
+ "C18": ("mc_conv", "4/C18", "exhaustive enumeration of ALL 2^32 f32 bit patterns (width 64; 8 widths thorough), all 2048 f64 exponents x ~160 mantissa patterns x both signs plus 2^52+k / k+0.5 neighbourhoods, and 2^k*m value universes for Uint->float, vs an exact integer oracle on the IEEE fields",
+         "Float->Uint results (value, error class, saturation) are compared with floor(f+1/2) computed exactly; Uint->float results must be one of the two exact neighbours, exact when representable, +inf only beyond the rounding range, and monotone along the sorted universe.",
+         "f64 mantissas from a pattern alphabet (not all 2^52). Wrapped payloads of float errors are unspecified in the code and not compared. Trusted: IEEE-754 conformance of the hardware/LLVM for +,*,casts."),
 }
 
 NOT_YET = {}
